@@ -1038,6 +1038,9 @@ class Engine:
 
     def index_cell(self, v, i):
         while type(v) is Ref: v = v.cell.v
+        if is_sym(i) and type(v) is VecV:
+            # decide the bounds check symbolically first: the out-of-range side is one path, not one per value
+            if not self.branch(z3.ULT(i, z3.BitVecVal(len(v.items), i.size()))): raise Panic('index out of bounds')
         if is_sym(i): i = self.concretize(i)
         if type(v) is VecV:
             if i >= len(v.items) or i < 0: raise Panic('index out of bounds')
